@@ -42,7 +42,6 @@ import (
 	"os"
 	"sort"
 	"strings"
-	"sync"
 
 	"github.com/cossacklabs/acra/keystore"
 	"github.com/cossacklabs/acra/keystore/filesystem"
@@ -694,7 +693,6 @@ func replayClear(c replayT) {
 
 // ---------------------------------------------------------------- main
 
-var poolMu sync.Mutex
 
 func main() {
 	parts := flag.String("parts", "", "comma-separated parts to run: clear,bind,tamper,path,modes (default: all)")
